@@ -1,6 +1,9 @@
 package types
 
-import "fmt"
+import (
+	"encoding/json"
+	"fmt"
+)
 
 // A Request is the Principal, Action, Resource, and Context portion of an
 // authorization request.
@@ -38,7 +41,12 @@ func (a Decision) String() string {
 func (a Decision) MarshalJSON() ([]byte, error) { return []byte(`"` + a.String() + `"`), nil }
 
 func (a *Decision) UnmarshalJSON(b []byte) error {
-	*a = string(b) == `"allow"`
+	// decode the JSON string: an escaped spelling such as "\u0061llow" is the same document as "allow"
+	var s string
+	if err := json.Unmarshal(b, &s); err != nil {
+		return err
+	}
+	*a = s == "allow"
 	return nil
 }
 
